@@ -40,7 +40,14 @@ def mname(i):
     return "h" if i == 0 else f"m{i}"
 
 
-def lib_components(s) -> str:
+def lib_components(s, pfx="l:") -> str:
+    """`pfx` is how the library refers to its OWN components: a prefix bound to its namespace, or nothing at all in a
+    chameleon schema (no targetNamespace, no default namespace: the names land in the including schema's namespace)."""
+    text = _lib_components(s)
+    return text if pfx == "l:" else text.replace('"l:', '"' + pfx)
+
+
+def _lib_components(s) -> str:
     ab = ' abstract="true"' if s["ext"] == "elemAbstractBase" else ""
     out = (
         f'<xs:complexType name="Base"{ab}><xs:sequence><xs:element name="x" type="xs:int"/></xs:sequence>'
@@ -89,6 +96,11 @@ def schema_files(s) -> dict:
     if s["split"] == "include":
         return {"main.xsd": head + '<xs:include schemaLocation="lib.xsd"/>' + main + "</xs:schema>",
                 "lib.xsd": lib_head + lib_components(s) + "</xs:schema>"}
+    if s["split"] == "chameleon":
+        # lib.xsd has NO target namespace and refers to its own types / elements without any prefix
+        cham_head = f'<xs:schema xmlns:xs="{XS}" elementFormDefault="qualified">'
+        return {"main.xsd": head + '<xs:include schemaLocation="lib.xsd"/>' + main + "</xs:schema>",
+                "lib.xsd": cham_head + lib_components(s, pfx="") + "</xs:schema>"}
     return {"main.xsd": head + f'<xs:import namespace="{L}" schemaLocation="lib.xsd"/>' + main + "</xs:schema>",
             "lib.xsd": lib_head + lib_components(s) + "</xs:schema>"}
 
